@@ -12,6 +12,8 @@ in the Lean model (driver op `pcase`).
  * family `overlap` — the same over real loopback TLS (echoing upstream + decoys), a fresh deployment per case;
  * family `seq`  — sequences of requests through one long-lived deployment whose upstream also answers with redirects
    (30/31 to other servers, to other paths of itself), the same URLs being asked again later.
+ * family `flaky` — sequences through one deployment whose upstream FAILS (refused, reset, closed before the header, half a header,
+   silent) and recovers: every connection made and every request line written for a request is judged, also those of a second try.
 """
 from __future__ import annotations
 
@@ -44,6 +46,8 @@ ASSUMPTIONS = [
     "the direct oracle computes host/port/path/query with urllib.parse.urlsplit, independently of nauyaca.utils.url",
     "family seq runs a sequence of requests through one fresh deployment per case (the recorder answers the connection of step k with the status/meta the case names for step k, "
     "2x bodies echo the request line; connections to any other host:port are answered by a decoy page): the model treats every request independently (driver op pcasen), which is the claim being checked",
+    "family flaky: the network is proxy_world.Net on a virtual clock; the k-th connection attempt made while a step runs meets the k-th fate the case lists (refused / never up / reset / closed / half a header / no header / silent / answered); "
+    "a proxy may open any number of connections after failed ones - each is judged (host:port, request line) - but none after one that was answered completely",
     "family overlap: several requests in flight through one fresh router/ProxyHandler over real loopback TLS sockets; the upstream answers each connection after 1-25 ms with an echo of the request line it read; the upstream is 127.0.0.1 or localhost on a port chosen at run time",
     "family conc runs several requests concurrently through one handler (asyncio.gather; the recorder brings each connection up after 0-15 ms - the protocol factory is called only then, as in asyncio's create_connection - and answers it after 1-30 ms with an echo of the request line): the model treats every request independently (driver op pcasen), which is exactly the claim being checked; identical URLs asked by m clients may be fetched between 1 and m times",
 ]
@@ -948,7 +952,322 @@ class Sequence(_Base):
         return f"steps={len(steps)}:redirects={min(3, sum(1 for _, st, _ in steps if 30 <= st <= 39))}:asked-again-after-31={'y' if repeat else 'n'}:foreign-target={'y' if foreign else 'n'}:fwd={min(fwd, 4)}"
 
 
-FAMILIES = [Map(), Live(), Concurrent(), Overlap(), Sequence()]
+def path_repeat(rng, locs):
+    """request paths in which a configured prefix occurs AGAIN right after itself (on and off a segment boundary): the
+    mapping must be applied exactly once - a path that still begins with the prefix after stripping is forwarded as it is"""
+    pre = loc_prefix(rng.choice(locs)["prefix"])
+    bare = pre.rstrip("/")
+    k = rng.choice([2, 2, 2, 3, 4])
+    tail = rng.choice(["", "x", "/", "/x", "users", "/users/7", "key", "//x", ";p", "/a.gmi", "x/y;z=1", "/%2e%2e/"])
+    r = rng.random()
+    if r < 0.4:
+        return pre * k + tail
+    if r < 0.6:
+        return (bare * k or "/" * k) + tail
+    if r < 0.75:
+        return pre + pre.lstrip("/") * (k - 1) + tail
+    if r < 0.9:
+        return bare + "/" + (bare.lstrip("/") + "/") * (k - 1) + tail.lstrip("/")
+    return pre + "/" + pre.lstrip("/") + tail
+
+
+class Flaky(_Base):
+    """An upstream that is NOT well: connections to it are refused, never come up, are reset or closed before a header,
+    carry half a header or a header that is none, stay silent until the location's timeout - and, on a later attempt or a
+    later request, it may be well again.  Whatever the proxy makes of that (give up with 43, try again, try again later),
+    EVERY connection it opens for a request goes to the configured upstream host:port and EVERY request line it writes is
+    base + mapped path + query of that request, the mapping applied exactly once - also for paths in which the location
+    prefix occurs again right after itself.  A sequence of requests runs through one fresh deployment (router from the real
+    ServerConfig, real ProxyHandler and GeminiClient) on a virtual clock (`proxy_world.VLoop` / `Net`); the k-th connection
+    attempt of a step meets the k-th fate the case names for it (the last one for all further attempts)."""
+    name = "flaky"
+    realtime = False    # virtual clock, no sockets: deterministic
+    quick_n = 320
+    thorough_n = 8000
+
+    CONNECT = ("refuse", "never")                             # the connection never comes up
+    COMPLETE = {"ok": (20, "text/plain"), "slow-ok": (20, "text/plain"), "notfound": (51, "Not found"),
+                "redirect": (31, "gemini://decoy.example:7070/moved")}
+    FAILING = ["refuse", "refuse", "reset", "reset", "close", "close", "partial", "garbage", "reset-mid", "silent", "never"]
+    FATES = FAILING + list(COMPLETE)
+
+    @classmethod
+    def plan(cls, fate: str, line: bytes) -> dict:
+        h = lambda b: b.hex()  # noqa: E731
+        if fate in cls.COMPLETE:
+            st, meta = cls.COMPLETE[fate]
+            t = 0.4 if fate == "slow-ok" else 0.0
+            return {"name": fate, "ev": [[t, "h", h(f"{st} {meta}\r\n".encode() + (line + b"\r\n" if st == 20 else b""))]], "end": ["close", t]}
+        if fate == "reset":
+            return {"name": fate, "ev": [], "end": ["reset", 0.0]}
+        if fate == "close":
+            return {"name": fate, "ev": [], "end": ["close", 0.0]}
+        if fate == "partial":
+            return {"name": fate, "ev": [[0.0, "h", h(b"20 text/pl")]], "end": ["close", 0.001]}
+        if fate == "garbage":
+            return {"name": fate, "ev": [[0.0, "h", h(b"HTTP/1.1 400 Bad Request\r\n\r\n")]], "end": ["close", 0.0]}
+        if fate == "reset-mid":
+            return {"name": fate, "ev": [[0.0, "h", h(b"20 text/plain\r\nhalf a pa")]], "end": ["reset", 0.002]}
+        return {"name": fate, "ev": [], "end": ["hold", 0.0]}      # silent
+
+    def setup(self):
+        from ..sim import proxy_world as W
+
+        if getattr(self, "_ready", False):
+            return
+        self._init_common()
+        self.loop.close()
+        self.loop = W.VLoop()
+        self._ups: set = set()
+        self._fates: list = ["ok"]
+        self._attempt = 0
+
+        def answer(host, port, line):
+            mine = (str(host).lower(), port) in self._ups
+            if line is None:       # a connection attempt (its record is the newest one)
+                rec = self.net.records[-1]
+                if not mine:
+                    rec["fate"] = "other-server"
+                    return "ok"
+                fate = self._fates[min(self._attempt, len(self._fates) - 1)]
+                self._attempt += 1
+                rec["fate"] = fate
+                return "refuse" if fate == "refuse" else "never" if fate == "never" else "ok"
+            if not mine:
+                return {"name": "decoy", "ev": [[0.0, "h", (b"20 text/plain\r\nDECOY " + line).hex()]], "end": ["close", 0.0]}
+            # the connection this request line was written on: the oldest one that is up and was not served yet
+            rec = next((r for r in self.net.records if "plan" not in r and r.get("fate") not in self.CONNECT + ("other-server",)
+                        and bytes(r["written"]).split(b"\r\n", 1)[0] == line), None)
+            return self.plan(rec["fate"] if rec else "close", line)
+
+        self.net = W.Net(self.loop, answer)
+        self._ready = True
+
+    def gen(self, rng: random.Random, n: int):
+        F = "gemini://front.example"
+        apis = {"type": "proxy", "prefix": "/api/", "upstream": "gemini://up.example", "strip": True}
+        api = {"type": "proxy", "prefix": "/api", "upstream": "gemini://up.example", "strip": True}
+        v1 = {"type": "proxy", "prefix": "/v1", "upstream": "gemini://up.example:7070/base", "strip": True}
+        root = {"type": "proxy", "prefix": "/", "upstream": "gemini://up.example:7070", "strip": True}
+        keep = {"type": "proxy", "prefix": "/api", "upstream": "gemini://10.0.0.9:70/a/b", "strip": False}
+        det = [
+            {"locs": [apis], "steps": [[F + "/api/users?id=1", ["ok"]], [F + "/api/api/users?id=1", ["ok"]], [F + "/api/users?id=1", ["close", "ok"]], [F + "/api/api/users?id=1", ["close", "ok"]]]},
+            {"locs": [v1], "steps": [[F + "/v1/v1/v1", ["refuse", "ok"]], [F + "/v1/v1/v1", ["reset", "reset", "ok"]], [F + "/v1v1/v1", ["close", "ok"]]]},
+            {"locs": [root], "steps": [[F + "///x//y?q", ["refuse"]], [F + "//", ["reset", "ok"]], [F + "////", ["close", "close", "close"]]]},
+            {"locs": [keep, root], "steps": [[F + "/api/api/x", ["close", "ok"]], [F + "/apiapi", ["refuse", "notfound"]], [F + "/x/x", ["partial", "ok"]]]},
+            {"locs": [api], "steps": [[F + "/api/api/api/x?a?b", ["silent", "ok"]], [F + "/api/api", ["never", "ok"]], [F + "/api/api/", ["garbage", "ok"]], [F + "/api//api", ["reset-mid", "ok"]]]},
+            {"locs": [apis, {"type": "static", "prefix": "/"}], "steps": [[F + "/api/api/api/", ["reset", "redirect"]], [F + "/api/api/api/", ["slow-ok"]], ["gemini://up.example/api/api/;p", ["partial", "slow-ok"]]]},
+        ]
+        cnt = 0
+        for c in self.share(det):
+            cnt += 1
+            yield c
+        ups = ["gemini://up.example", "gemini://up.example:7070", "gemini://up.example/base", "gemini://10.0.0.9:70/a/b"]
+        for _ in range(max(0, n - cnt)):
+            locs = []
+            for _ in range(rng.choice([1, 1, 2, 3])):
+                if rng.random() < 0.85:
+                    locs.append({"type": "proxy", "prefix": rng.choice(["/", "/api", "/api/", "/a/b/", "/a/b", "/apikey", "/v1"]), "upstream": rng.choice(ups), "strip": rng.random() < 0.75})
+                else:
+                    locs.append({"type": "static", "prefix": rng.choice(["/", "/s/", "/api/"])})
+            paths = [path_repeat(rng, locs) if rng.random() < 0.65 else path_near(rng, locs) for _ in range(3)]
+            paths = [p for p in paths if p.isascii() and " " not in p and "\\" not in p and "?" not in p] or ["/api/api/x"]
+            steps = []
+            for _ in range(rng.choice([1, 2, 3, 4])):
+                u = rng.choice(paths) + rng.choice(["", "", "?", "?q", "?a=b&c=d", "?a?b", "?" + "z" * rng.randrange(1, 30)])
+                r = rng.random()
+                if r < 0.2:
+                    fates = [rng.choice(list(self.COMPLETE))]
+                elif r < 0.75:
+                    fates = [rng.choice(self.FAILING) for _ in range(rng.choice([1, 1, 2]))] + [rng.choice(["ok", "ok", "slow-ok", "notfound", "redirect"])]
+                else:
+                    fates = [rng.choice(self.FAILING) for _ in range(rng.choice([1, 2, 3]))]
+                steps.append(["gemini://" + rng.choice(["front.example", "front.example", "front.example:1966", "decoy.example:7070", "up.example"]) + u, fates])
+            yield {"locs": locs, "steps": steps}
+
+    def impl(self, case):
+        from nauyaca.protocol.request import GeminiRequest
+
+        router, chosen = self._router(case["locs"], fresh=True)
+        self._ups = set()
+        for l in case["locs"]:
+            if l["type"] == "proxy":
+                try:
+                    h, p = spec_hostport(l["upstream"])
+                    self._ups.add(((h or "").lower(), p))
+                except ValueError:
+                    pass
+        out = []
+        for line, fates in case["steps"]:
+            try:
+                req = GeminiRequest.from_line(line)
+            except ValueError:
+                out.append({"req": "rejected"})
+                continue
+            chosen.clear()
+            self.net.records.clear()
+            self._fates, self._attempt = list(fates) or ["ok"], 0
+            t0 = self.loop.time()
+            body = ""
+            try:
+                res = router.route(req)
+                if asyncio.iscoroutine(res):
+                    res = self.loop.run_until_complete(res)
+                status, rmeta = res.status, res.meta
+                b = res.body
+                body = b if isinstance(b, str) else bytes(b).decode("utf-8", "replace") if isinstance(b, (bytes, bytearray)) else ""
+            except Exception as e:  # noqa: BLE001
+                status, rmeta = "raised:" + type(e).__name__, ""
+            took = round(self.loop.time() - t0, 3)
+            self.loop.run_until_complete(asyncio.sleep(1.0))     # virtual: whatever is still scheduled for this step happens now
+            route = chosen[0] if chosen else "default"
+            o = {"req": "ok", "route": route, "status": status, "meta": rmeta, "body": body, "took": took}
+            if route != "default":
+                o["kind"] = case["locs"][route]["type"]
+            o["conns"] = [[r["host"], r["port"]] for r in self.net.records]
+            o["sent"] = [bytes(r.get("written", b"")).decode("utf-8", "surrogateescape") for r in self.net.records]
+            o["fates"] = [r.get("fate", "?") for r in self.net.records]
+            out.append(o)
+        return {"steps": out}
+
+    def model(self, case):
+        locs = case["locs"]
+        ls = ";".join(f"s:{cps(l['prefix'])}" if l["type"] == "static" else f"x:{cps(l['prefix'])}:{1 if l['strip'] else 0}:{cps(l['upstream'])}" for l in locs)
+        return f"pcasen 1 1 1 1 {ls or '-'} " + ";".join(cps(s[0]) for s in case["steps"])
+
+    def expect(self, case, out):
+        return [_Base.expect(self, case, part) for part in out.split(" ; ")]
+
+    def same(self, expected, obs):
+        """the model knows one connection per request, to the upstream, carrying the mapped URL (nothing is written on a
+        connection that never came up); what the proxy answers when the upstream fails is C18's matter"""
+        if len(expected) != len(obs["steps"]):
+            return False
+        for e, o in zip(expected, obs["steps"]):
+            for k in ("req", "route", "kind"):
+                if k in e and o.get(k) != e[k]:
+                    return False
+            if "conns" not in e:
+                continue
+            if o.get("conns") != e["conns"]:
+                return False
+            if e["conns"] and o["sent"][0] != e["sent"][0] and not (o["sent"][0] == "" and o["fates"][0] in self.CONNECT):
+                return False
+        return True
+
+    def judge_step(self, locs, line, o):
+        if o["req"] != "ok":
+            return None
+        try:
+            path, query = spec_split(line)
+        except ValueError:
+            return None
+        i = spec_location(locs, path)
+        want_route = "default" if i is None else i
+        if o["route"] != want_route:
+            return ("route-order", f"path {path!r} must be served by location {want_route} (first matching prefix), was served by {o['route']}")
+        if i is None or locs[i]["type"] != "proxy":
+            if o.get("conns"):
+                return ("connect-without-proxy", f"a non-proxy location made connections {o['conns']}")
+            return None
+        loc = locs[i]
+        want_url = spec_url(loc, path, query)
+        uh, uport = spec_hostport(loc["upstream"])
+        n = len(o["conns"])
+        told = lambda k: (f"connection {k + 1} of {n} made for request {line!r} via location {loc}"  # noqa: E731
+                          + (f" (the upstream had {', '.join(o['fates'][:k])} for the earlier one(s))" if k else ""))
+        for k, c in enumerate(o["conns"]):
+            if [c[0], c[1]] != [uh, uport]:
+                return ("foreign-host", f"{told(k)} went to {c} instead of the upstream {[uh, uport]}")
+        if not o["conns"]:
+            if len(want_url.encode()) + 2 <= 1024:
+                return ("not-forwarded", f"request {line!r} was not forwarded (status {o.get('status')}) although the upstream URL {want_url!r} is valid")
+            return None
+        base = loc["upstream"].rstrip("/")
+        want_path = up.urlsplit(base).path + spec_mapped(loc_prefix(loc["prefix"]), loc["strip"], path)
+        for k, sent in enumerate(o["sent"]):
+            if sent == "" and o["fates"][k] in self.CONNECT:
+                continue        # never came up: nothing could be written
+            if not sent.endswith("\r\n") or "\r\n" in sent[:-2]:
+                return ("request-line-framing", f"{told(k)}: upstream request {sent!r} is not one line")
+            s = up.urlsplit(sent[:-2])
+            if s.path != want_path:
+                return ("path-mapping", f"{told(k)}: upstream was asked {sent[:-2]!r}: path {s.path!r}, expected {want_path!r} (prefix taken off exactly once) - {want_url!r}")
+            if s.query != query:
+                return ("query-mapping", f"{told(k)}: upstream was asked {sent[:-2]!r}: query {s.query!r}, expected {query!r}")
+            if (s.hostname, s.port if s.port is not None else 1965) != (uh, uport):
+                return ("request-line-host", f"{told(k)}: upstream request line {sent!r} names another server than {loc['upstream']!r}")
+            if sent[:-2] != want_url:
+                return ("url-text", f"{told(k)}: upstream request {sent[:-2]!r} differs from base + mapped path + query = {want_url!r}")
+        for k in range(n - 1):
+            if o["fates"][k] in self.COMPLETE:
+                return ("many-connections", f"{told(k + 1)} although connection {k + 1} had been answered completely ({o['fates'][k]})")
+        last = o["fates"][-1]
+        if last in self.COMPLETE:
+            st, meta = self.COMPLETE[last]
+            if (o["status"], o["meta"]) != (st, meta):
+                return ("answer-of-another-request", f"request {line!r}: the upstream answered {st} {meta!r} on {told(n - 1)}, the client was answered {o['status']} {o['meta']!r}")
+            if st == 20 and o["body"] != want_url + "\r\n":
+                return ("answer-of-another-request", f"request {line!r} (upstream URL {want_url!r}) was answered with the page of {o['body']!r}")
+        return None
+
+    def oracle(self, case, obs):
+        hist = []
+        for k, ((line, fates), o) in enumerate(zip(case["steps"], obs["steps"])):
+            v = self.judge_step(case["locs"], line, o)
+            if v is not None:
+                return (v[0], f"step {k + 1} of a sequence through one deployment with a failing upstream (upstream's fate per connection attempt: {fates}; before it: {'; '.join(hist) or 'nothing'}): {v[1]}")
+            hist.append(f"{line!r} with {fates} -> {o.get('status')}")
+        return None
+
+    def key(self, case, obs):
+        kinds, rep, tries = set(), False, 1
+        for (line, fates), o in zip(case["steps"], obs["steps"]):
+            if o["req"] != "ok" or o.get("kind") != "proxy":
+                continue
+            loc = case["locs"][o["route"]]
+            path, _ = spec_split(line)
+            pre = loc_prefix(loc["prefix"])
+            once = spec_mapped(pre, loc["strip"], path)
+            if loc["strip"] and once != path and spec_mapped(pre, True, once) != once:
+                rep = True
+            tries = max(tries, len(o.get("conns", [])))
+            f = fates[0]
+            if kinds and f in self.COMPLETE:
+                continue
+            kinds.add("never-up" if f in self.CONNECT else "lost-before-header" if f in ("reset", "close") else "bad-header" if f in ("partial", "garbage") else
+                      "silent" if f == "silent" else "lost-in-body" if f == "reset-mid" else "well")
+        if not kinds:
+            return "no proxy step"
+        if len(kinds) > 1:
+            kinds.discard("well")
+        if len(kinds) > 1:
+            kinds = {"several kinds of failure"}
+        return f"first-attempt={'+'.join(sorted(kinds))}:prefix-again-after-strip={'y' if rep else 'n'}:connections-per-request<={min(tries, 3)}"
+
+    def shrink(self, case, bad):
+        """drop steps, then shorten the lists of fates"""
+        cur = case
+        changed, budget = True, 60
+        while changed and budget > 0:
+            changed = False
+            cands = [dict(cur, steps=cur["steps"][:i] + cur["steps"][i + 1:]) for i in range(len(cur["steps"])) if len(cur["steps"]) > 1]
+            cands += [dict(cur, steps=cur["steps"][:i] + [[s[0], s[1][:j] + s[1][j + 1:]]] + cur["steps"][i + 1:])
+                      for i, s in enumerate(cur["steps"]) for j in range(len(s[1])) if len(s[1]) > 1]
+            for cand in cands:
+                budget -= 1
+                if budget <= 0:
+                    break
+                try:
+                    if bad(cand):
+                        cur, changed = cand, True
+                        break
+                except Exception:  # noqa: BLE001
+                    pass
+        return cur
+
+
+FAMILIES = [Map(), Live(), Concurrent(), Overlap(), Sequence(), Flaky()]
 
 
 def extract_extra():
